@@ -3,6 +3,7 @@ package loadbalancer
 import (
 	"net/http"
 	"sync"
+	"time"
 )
 
 // WeightedRoundRobinStrategy implements a smooth weighted round-robin load balancing strategy.
@@ -37,9 +38,10 @@ func (wrr *WeightedRoundRobinStrategy) NextBackend(r *http.Request) *Backend {
 	totalWeight := 0
 	var best *weightedBackend
 
+	now := time.Now()
 	for _, wb := range wrr.backends {
-		// Only consider healthy backends
-		if wb.backend.IsHealthy {
+		// Only consider healthy backends (or ones whose unhealthy window elapsed)
+		if wb.backend.eligible(now) {
 			totalWeight += wb.backend.Weight
 			wb.currentWeight += wb.backend.Weight
 
